@@ -363,7 +363,8 @@ func (x *exec) evalAt(st *pstate, sc *scope) *Eval {
 		pkg = x.fn.Pkg.Pkg
 	}
 	return &Eval{P: x.p, Env: x.env, Pkg: pkg, Heap: st.heap, Old: x.old, Scope: sc, TParams: x.tparams, Facts: func(t *smt.Term) { st.assume(t, "type invariant of a value read by a specification") },
-		Owned: func(r *ownedRef) *smt.Term { return x.ownedTerm(st, r, x.fn.Pos()) }, ufSeen: x.ufSeenOf(st)}
+		Owned: func(r *ownedRef) *smt.Term { return x.ownedTerm(st, r, x.fn.Pos()) }, ufSeen: x.ufSeenOf(st),
+		OwnedField: func(ol *ownedFieldLoc) *smt.Term { return x.ownedFieldPeek(st, ol) }}
 }
 
 func (x *exec) ufSeenOf(st *pstate) map[*smt.Term]int {
